@@ -325,6 +325,11 @@ def run(prog, ctx):
     ctx.guarded("R16.6", prog.func("symmray.abelian_core:AbelianArray.from_blocks"), check_constructors, prog, ctx)
     check_default_capture(prog, ctx)
     check_dead_params(prog, ctx)
-    check_ctor_flow(prog, ctx)
+    # check_ctor_flow and check_sorted read the TEXT of the constructors / of to_dense.  The signature facts (symmetry=, charge=, **kwargs,
+    # None defaults, no overrides in subclasses) are public interface and stay hard.  The form facts (the resolver is called as
+    # cls.get_class_symmetry(symmetry), the default is written `if charge is None: charge = symmetry.combine()`, one cls(...) call, a
+    # sorted(...) loop in to_dense) can only add confidence: what the constructors and the dense conversion do is decided by R16.6 / R16.7.
+    ctx.confidence(check_ctor_flow, ("R16.6", "R16.7"), "R16.2/R16.3",
+                   hard=lambda f_: f_.construct.startswith(("signature", "default of ")) or f_.message.endswith("from AbelianArray"))
     check_tables(prog, ctx)
-    check_sorted(prog, ctx)
+    ctx.confidence(check_sorted, ("R16.6", "R16.7"), "R16.5")
